@@ -99,3 +99,60 @@ Proof.
   split; [now apply update_entry_render|]. split; [now apply replace_wf|].
   split; [apply replace_ids|]. intros e. apply replace_others_identical.
 Qed.
+
+(* ---------- order independence of rewrites of different slots ---------- *)
+
+Lemma replace_entry_comm t1 s1 t2 s2 e :
+  t1 <> t2 -> replace_entry t1 s1 (replace_entry t2 s2 e) = replace_entry t2 s2 (replace_entry t1 s1 e).
+Proof.
+  intros Hne.
+  destruct (beq_spec (fst e) t2) as [E2|N2].
+  - assert (N1 : fst e <> t1) by congruence.
+    rewrite (replace_entry_same t2 s2 e E2), (replace_entry_other t1 s1 e N1).
+    rewrite (replace_entry_same t2 s2 e E2). apply replace_entry_other. cbn [fst]. congruence.
+  - rewrite (replace_entry_other t2 s2 e N2).
+    destruct (beq_spec (fst e) t1) as [E1|N1].
+    + rewrite (replace_entry_same t1 s1 e E1). symmetry. apply replace_entry_other. cbn [fst]. congruence.
+    + rewrite (replace_entry_other t1 s1 e N1). symmetry. now apply replace_entry_other.
+Qed.
+
+(* two rewrites of different slots give the same file, byte for byte, in either order *)
+Lemma updates_commute t1 s1 t2 s2 es :
+  Forall wf_entry es -> wf_entry (t1, s1) -> wf_entry (t2, s2) ->
+  no_collision t1 es -> no_collision t2 es ->
+  ~ In t1 (split_nl s2) -> ~ In t2 (split_nl s1) -> t1 <> t2 ->
+  update_entry t1 s1 (update_entry t2 s2 (render es)) =
+  update_entry t2 s2 (update_entry t1 s1 (render es)).
+Proof.
+  intros Hwf W1 W2 Hc1 Hc2 H12 H21 Hne.
+  pose proof W1 as [_ [Hn1 [He1 _]]]. pose proof W2 as [_ [Hn2 [He2 _]]]. cbn [fst] in *.
+  rewrite (update_entry_render t2 s2 es) by assumption.
+  rewrite (update_entry_render t1 s1 es) by assumption.
+  rewrite update_entry_render; auto using replace_wf, replace_no_collision.
+  rewrite update_entry_render; auto using replace_wf, replace_no_collision.
+  rewrite !map_map. f_equal. apply map_ext. intros e. now apply replace_entry_comm.
+Qed.
+
+(* ... and after both, each of the two slots replays its own new value *)
+Lemma updates_both_set t1 s1 t2 s2 es :
+  Forall wf_entry es -> wf_entry (t1, s1) -> wf_entry (t2, s2) ->
+  no_collision t1 es -> no_collision t2 es ->
+  ~ In t1 (split_nl s1) -> ~ In t2 (split_nl s2) ->
+  ~ In t1 (split_nl s2) -> ~ In t2 (split_nl s1) -> t1 <> t2 ->
+  lookup_entry t1 es <> None -> lookup_entry t2 es <> None ->
+  let f := update_entry t1 s1 (update_entry t2 s2 (render es)) in
+  option_map fst (get_prev t1 f) = Some s1 /\ option_map fst (get_prev t2 f) = Some s2.
+Proof.
+  intros Hwf W1 W2 Hc1 Hc2 H11 H22 H12 H21 Hne L1 L2 f.
+  pose proof W1 as [_ [Hn1 [He1 _]]]. pose proof W2 as [_ [Hn2 [He2 _]]]. cbn [fst] in *.
+  assert (Hwf2 : Forall wf_entry (map (replace_entry t2 s2) es)) by auto using replace_wf.
+  split; subst f.
+  - rewrite (update_entry_render t2 s2 es) by assumption.
+    apply update_sets; auto using replace_no_collision.
+    rewrite lookup_replace_other by congruence. assumption.
+  - rewrite updates_commute by assumption.
+    assert (Hwf1 : Forall wf_entry (map (replace_entry t1 s1) es)) by auto using replace_wf.
+    rewrite (update_entry_render t1 s1 es) by assumption.
+    apply update_sets; auto using replace_no_collision.
+    rewrite lookup_replace_other by congruence. assumption.
+Qed.
